@@ -33,3 +33,22 @@ package vgirpc
 //@   at call writeErrorBatch assert [reported] arg2 != nil
 //@   at call (*HttpServer).writeExchangeCapError assert [reportedcap] arg4 != nil
 //@   ensures [local_erragree] errResp ==> result != nil
+
+// A producer turn that failed inside runProduceLoop has already answered with an exception batch
+// (runProduceLoop writes it): the error it returns must reach the hook's end callback. In the
+// /init path it is stored in the handlerErr cell the deferred cleanup reads; in the continuation
+// path it is the continuation's own return value (stored by handleStreamExchange).
+//
+//@ func (*HttpServer).handleStreamInit
+//@   property C37
+//@   pathflag produceFailed
+//@   at call (*HttpServer).runProduceLoop setflag produceFailed result1 != nil
+//@   # (stated at the first call after the loop's error was stored: the cell's address is held by the
+//@   # hook machinery, so nothing can be said about it across later unknown calls)
+//@   at call (*ipc.Writer).Close after (*HttpServer).runProduceLoop assert [producererr] produceFailed ==> handlerErr != nil
+//
+//@ func (*HttpServer).handleProducerContinuation
+//@   property C37
+//@   pathflag produceFailed
+//@   at call (*HttpServer).runProduceLoop setflag produceFailed result1 != nil
+//@   ensures [local_producererr] produceFailed ==> result != nil
